@@ -48,7 +48,12 @@ def recording_classes():
                     return x
 
                 def receive_reward(self, time, reward):
-                    cells = adapters.credited_cells(self)
+                    try:
+                        cells = adapters.credited_cells(self)
+                    except HarnessError:
+                        raise
+                    except Exception as e:  # noqa: harness code must not look like a crash of the code under check
+                        raise HarnessError("cannot observe the cell a learner handed out: %s: %s" % (type(e).__name__, e))
                     super().receive_reward(time, reward)
                     CURRENT.events.append(("reward", self._xmc_id, CURRENT.phase, reward, cells))
 
@@ -138,19 +143,18 @@ class UnitLedger:
             if st.count != cnt:
                 raise Violation("C04.count", "cell %r has visit count %r, the history credits it %d time(s) %s"
                                 % (cid, st.count, cnt, where))
-            if not _same_list(st.rewards, rew):
+            if not _same_multiset(st.rewards, rew):
                 raise Violation("C04.list", "cell %r holds rewards %r, the history gives %r %s" % (cid, st.rewards[:8], rew[:8], where))
-            if st.mean is not None:
-                want = (sum(rew) / len(rew)) if rew else 0.0
-                if not close(st.mean, want):
+            scale = max((abs(x) for x in rew), default=0.0)
+            if st.mean is not None and rew:
+                # (the mean of an empty history is not defined by the statement: 0, nan or anything else)
+                want = sum(rew) / len(rew)
+                if not close(st.mean, want, 1e-9, scale):
                     raise Violation("C04.mean", "cell %r has mean %r, the history gives %r %s" % (cid, st.mean, want, where))
-            if st.var is not None:
-                if rew:
-                    m = sum(rew) / len(rew)
-                    want = max(sum((x - m) ** 2 for x in rew) / len(rew), 1e-3)
-                else:
-                    want = 1e-3
-                if not close(st.var, want, 1e-7):
+            if st.var is not None and rew:
+                m = sum(rew) / len(rew)
+                want = max(sum((x - m) ** 2 for x in rew) / len(rew), 1e-3)
+                if not close(st.var, want, 1e-7, scale * scale):
                     raise Violation("C04.var", "cell %r has variance %r, the history gives %r %s" % (cid, st.var, want, where))
             total += cnt if kind != "T_HOO" else 0
         if kind == "T_HOO":
@@ -169,6 +173,11 @@ def _same(a, b):
 
 def _same_list(a, b):
     return len(a) == len(b) and all(_same(x, y) for x, y in zip(a, b))
+
+
+def _same_multiset(a, b):
+    """The statement speaks of the rewards recorded for a cell, not of their order."""
+    return len(a) == len(b) and _same_list(sorted(map(float, a)), sorted(map(float, b)))
 
 
 # ------------------------------------------------------------------ oracles
@@ -254,17 +263,26 @@ class ZoomingLedgerOracle(Oracle):
         pt = _attr(algo, "pulled_times")
         av = _attr(algo, "average_rewards")
         ids = {id(a) for a in act}
-        for aid, (arm, rew) in self.led.items():
+        for aid, (arm, rew) in list(self.led.items()):
             if aid not in ids:
+                # an arm object may be re-created when it is handed down to a child: the same location with the
+                # same number of pulls is the same arm
+                twin = [a for a in act if id(a) not in self.led and list(map(float, a.get_point())) == list(map(float, arm.get_point()))
+                        and pt[a] == len(rew)]
+                if twin:
+                    del self.led[aid]
+                    self.led[id(twin[0])] = [twin[0], rew]
+                    continue
                 raise Violation("C04.lost", "arm at %r with %d rewards is no longer active (round %d)" % (arm.get_point(), len(rew), ctx.t))
         tot = 0
         for arm in act:
             rew = self.led.get(id(arm), [arm, []])[1]
             if pt[arm] != len(rew):
                 raise Violation("C04.count", "arm at %r has pull count %r, history credits %d (round %d)" % (arm.get_point(), pt[arm], len(rew), ctx.t))
-            want = sum(rew) / len(rew) if rew else 0.0
-            if not close(av[arm], want):
-                raise Violation("C04.mean", "arm at %r has mean %r, history gives %r (round %d)" % (arm.get_point(), av[arm], want, ctx.t))
+            if rew:
+                want = sum(rew) / len(rew)
+                if not close(av[arm], want, 1e-9, max(abs(x) for x in rew)):
+                    raise Violation("C04.mean", "arm at %r has mean %r, history gives %r (round %d)" % (arm.get_point(), av[arm], want, ctx.t))
             tot += pt[arm]
         if tot != self.t:
             raise Violation("C04.sum", "pull counts sum to %d after %d rounds" % (tot, self.t))
@@ -356,7 +374,7 @@ class WrapperLedgerOracle(Oracle):
             V = _attr(self.inner, "V_reward")
             for j, rew in self.val.items():
                 want = sum(rew) / len(rew)
-                if j >= len(V) or not close(V[j], want):
+                if j >= len(V) or not close(V[j], want, 1e-9, max(abs(x) for x in rew)):
                     raise Violation("C04.score", "score of validated point #%d is %r, mean of its %d validation rewards is %r %s"
                                     % (j, V[j] if j < len(V) else None, len(rew), want, where))
         for lid, u in self.units.items():
